@@ -764,14 +764,36 @@ def rule_success_only_against_own_kind(em, rep, rid):
             n += 1
             key = '%s:%s' % (u.qname if u.cls is c else '%s(%s)' % (u.qname, c.name), norm(call)[:40])
             ok = False
+            me = v.params[0] if v.params else 'self'
             for t in dom[m]:
                 e = t.ast if t.kind == 'test' else None
+                lab = 'true'
+                while isinstance(e, ast.UnaryOp) and isinstance(e.op, ast.Not):
+                    e, lab = e.operand, ('false' if lab == 'true' else 'true')
+                same = False
                 if isinstance(e, ast.Call) and is_name(e.func, 'isinstance') and len(e.args) == 2:
                     names = {x.id for x in ast.walk(e.args[1]) if isinstance(x, ast.Name)}
-                    if names and names <= own:
-                        r = cfg.g.reach([cfg.entry], edge_ok=lambda lbl, a, b, t=t: not (a is t and lbl == 'true'))
-                        if m not in r:
-                            ok = True
+                    k_ = e.args[1]
+                    if isinstance(k_, ast.Attribute) and is_name(k_.value, me):
+                        # isinstance(other, self._kind): the class attribute as it is set for this class
+                        names = set()
+                        for st in em.engine.tree.body:
+                            if isinstance(st, ast.Assign) and isinstance(st.value, ast.Name) and any(
+                                    isinstance(t_, ast.Attribute) and t_.attr == k_.attr and is_name(t_.value, c.name) for t_ in st.targets):
+                                names.add(st.value.id)
+                        for kc in em.repo.mro(c):
+                            if not names and isinstance(kc.class_attrs.get(k_.attr), ast.Name):
+                                names.add(kc.class_attrs[k_.attr].id)
+                    same = bool(names) and names <= own
+                elif isinstance(e, ast.Compare) and len(e.ops) == 1 and isinstance(e.ops[0], (ast.Is, ast.IsNot)) and \
+                        (is_name(e.left, me) or is_name(e.comparators[0], me)):
+                    same = True         # the very same object is of the same class
+                    if isinstance(e.ops[0], ast.IsNot):
+                        lab = 'false' if lab == 'true' else 'true'
+                if same:
+                    r = cfg.g.reach([cfg.entry], edge_ok=lambda lbl, a, b, t=t, lab=lab: not (a is t and lbl == lab))
+                    if m not in r:
+                        ok = True
             if ok:
                 rep.ok(rid, key, 'only when the other term is a %s' % c.name, v.loc(call))
             else:
